@@ -213,7 +213,15 @@ def run_in(case, ctx, d, tmp, refdir, cwd, actdir, systmp, out):
 
         class Other(ReferenceTest):
             pass
-        Mine.set_defaults(tmp_dir=tmp)
+        if len(case['act' if not binary else 'bin']) % 2:
+            Mine.set_defaults(tmp_dir=tmp)
+        else:
+            # configured on the base class, with the environment pointing
+            # somewhere else: what is configured wins
+            ReferenceTest.set_defaults(tmp_dir=tmp)
+            os.environ['TDDA_FAIL_DIR'] = os.path.join(d, 'env-fail-dir')
+            os.makedirs(os.environ['TDDA_FAIL_DIR'], exist_ok=True)
+            out.label('tmp_dir:on-base-class+TDDA_FAIL_DIR')
         # another test class configures a directory of its own afterwards
         other = os.path.join(d, 'other-tmp')
         os.makedirs(other)
